@@ -11,8 +11,10 @@ H = lambda s: (s if isinstance(s, bytes) else s.encode()).hex()
 TARGET_POOL = [b"ta:80", b"tb:80", b"tc:80", b"td:80", b"te:80", b"tf:80", b"tg:80", b"th:80", b"ti:80", b"tj:80",
                b"tk:80", b"tl:80", b"tm:80", b"tn:80", b"to:80", b"tp:80"]
 POINTS = ["req:routed", "req:gate-passed", "req:lb-picked", "req:claimed", "deploy:found", "deploy:healthy",
-          "deploy:slot-updated", "deploy:installed", "drain:marked", "probe:applied", "pause:gate-set",
-          "snapshot:collected", "snapshot:created", "snapshot:written", "snapshot:renamed"]
+          "deploy:slot-updated", "deploy:installed", "drain:marked", "probe:applied", "pause:gate-set"]
+# snapshot:* yields are NOT armed by the random generator: a goroutine parked there holds the snapshot mutex and a
+# second command would block on it (a sync.Mutex wait is not "durably blocked" for synctest); C12 has its own ops.
+SNAPSHOT_POINTS = ["snapshot:collected", "snapshot:created", "snapshot:written", "snapshot:renamed"]
 
 
 class Gen:
@@ -20,7 +22,8 @@ class Gen:
         self.rnd = rnd
         self.p = {"requests": 1.0, "deploys": 1.0, "pause": 0.6, "rollout": 0.4, "remove": 0.15, "yields": 0.5,
                   "flap": 0.3, "hang": 0.25, "hosts": [b"a.example.com", b"b.example.com"], "services": [b"web", b"api"],
-                  "upgrade": 0.0}
+                  "upgrade": 0.0, "flap_targets": True, "behaviours": None, "fail_deploys": 0.2, "points": POINTS,
+                  "drain_timeouts": [0, 1 * SEC, 3 * SEC, 3 * SEC]}
         if profile:
             self.p.update(profile)
         self.steps = []
@@ -46,6 +49,8 @@ class Gen:
                 probes = [rnd.choice(["refused", "status:503", "status:302"]) for _ in range(k)] + ["ok"]
             elif r < 0.9:
                 probes = ["slow:%d" % rnd.choice([100 * MS, 900 * MS, 1500 * MS])] + ["ok"]
+            elif not self.p["flap_targets"]:
+                probes = ["ok"]
             else:
                 probes = ["ok", "ok", rnd.choice(["refused", "status:500"]), "ok"]      # flaps after deployment
             out.append({"name": H(name), "probes": probes})
@@ -61,7 +66,7 @@ class Gen:
         st = {"op": "deploy", "id": self.cmd_id(), "async": async_, "name": H(name), "hosts": [H(host)], "prefixes": [],
               "tls": False, "tls_redirect": False, "strip": True, "cert": "none", "pages": "none",
               "targets": self.targets(rnd.choice([1, 1, 2, 3]), healthy),
-              "deploy_timeout": rnd.choice([2, 3, 5]) * SEC, "drain_timeout": rnd.choice([0, 1 * SEC, 3 * SEC, 3 * SEC]),
+              "deploy_timeout": rnd.choice([2, 3, 5]) * SEC, "drain_timeout": rnd.choice(self.p["drain_timeouts"]),
               "topts": {"interval": SEC, "timeout": rnd.choice([500 * MS, 5 * SEC])}}
         self.steps.append(st)
         if healthy:
@@ -74,7 +79,9 @@ class Gen:
         name = name or rnd.choice(names)
         host = self.live.get(name, rnd.choice(self.p["hosts"]))
         r = rnd.random()
-        if r < self.p["hang"]:
+        if self.p["behaviours"]:
+            beh = rnd.choice(self.p["behaviours"])
+        elif r < self.p["hang"]:
             beh = rnd.choice(["hang", "delay:%d" % (rnd.choice([1, 2, 4, 10]) * SEC), "delay:%d" % (3 * SEC - 1), "delay:%d" % (3 * SEC),
                               "delay:%d" % (1 * SEC + 1)])
         else:
@@ -96,8 +103,10 @@ class Gen:
     def gen(self, n_actions):
         rnd, p = self.rnd, self.p
         # initial services, deployed synchronously
-        for name in p["services"][:rnd.choice([1, 1, 2])]:
+        for name in (p["services"] if p.get("initial_all") else p["services"][:rnd.choice([1, 1, 2])]):
             self.deploy(name, async_=False, host=p["hosts"][len(self.live) % len(p["hosts"])])
+            for t in self.steps[-1]["targets"]:
+                t["probes"] = ["ok"]                       # the initial deployments always succeed
         for _ in range(n_actions):
             r = rnd.random() * (p["requests"] + p["deploys"] + p["pause"] + p["rollout"] + p["remove"] + p["yields"] + p["flap"] + 1.0)
             acc = p["requests"]
@@ -108,7 +117,7 @@ class Gen:
             acc += p["deploys"]
             if r < acc:
                 name = rnd.choice(p["services"])
-                self.deploy(name, healthy=rnd.random() < 0.8)
+                self.deploy(name, healthy=rnd.random() >= self.p["fail_deploys"])
                 continue
             acc += p["pause"]
             if r < acc and self.live:
@@ -145,7 +154,7 @@ class Gen:
                     pt = self.armed.pop(rnd.randrange(len(self.armed)))
                     self.steps.append({"op": "release", "point": pt, "who": ""})
                 else:
-                    pt = rnd.choice(POINTS)
+                    pt = rnd.choice(self.p["points"])
                     self.steps.append({"op": "arm", "point": pt, "n": 1})
                     self.armed.append(pt)
                 continue
